@@ -572,4 +572,148 @@ theorem decodeChunks_goS (cs : List Bytes) : ∀ (p : Bytes) (outs : List Bytes)
           simp only
           rw [hg2]; simp
 
+theorem seqLen_cases (a : UInt8) :
+    (seqLen a = 1 ∧ a.toNat < 0x80) ∨ (seqLen a = 2 ∧ 0xC2 ≤ a.toNat ∧ a.toNat ≤ 0xDF) ∨
+    (seqLen a = 3 ∧ 0xE0 ≤ a.toNat ∧ a.toNat ≤ 0xEF) ∨ (seqLen a = 4 ∧ 0xF0 ≤ a.toNat ∧ a.toNat ≤ 0xF4) ∨ seqLen a = 0 := by
+  simp only [seqLen]
+  repeat' split
+  all_goals simp_all
+  all_goals omega
+
+theorem stepS_wf (p : Bytes) (x : UInt8) (o p' : Bytes) (hp : pendOk p = true) (h : stepS p x = some (o, p')) :
+    pendOk p' = true ∧ (o = [] ∨ wfChar o = true) := by
+  match p, hp with
+  | [], _ =>
+    simp only [stepS] at h
+    split at h
+    · rename_i h1
+      simp at h; obtain ⟨rfl, rfl⟩ := h
+      refine ⟨rfl, Or.inr ?_⟩
+      rcases seqLen_cases x with c | c | c | c | c <;> simp_all [wfChar]
+    · split at h
+      · simp at h
+      · rename_i h1 h0
+        simp at h; obtain ⟨rfl, rfl⟩ := h
+        refine ⟨?_, Or.inl rfl⟩
+        rcases seqLen_cases x with c | c | c | c | c <;> simp_all [pendOk]
+  | [b0], hp =>
+    simp only [pendOk, decide_eq_true_eq] at hp
+    simp only [stepS] at h
+    by_cases hacc : accepts [b0] x = true
+    · rw [if_pos hacc] at h
+      have hso : secondOk b0 x = true := by simpa [accepts] using hacc
+      by_cases hl : [b0].length + 1 = seqLen b0
+      · rw [if_pos hl] at h
+        simp at h; obtain ⟨rfl, rfl⟩ := h
+        refine ⟨rfl, Or.inr ?_⟩
+        have hc := secondOk_cont b0 x hso
+        rcases seqLen_cases b0 with c | c | c | c | c <;> simp_all [wfChar]
+      · rw [if_neg hl] at h
+        simp at h; obtain ⟨rfl, rfl⟩ := h
+        refine ⟨?_, Or.inl rfl⟩
+        rcases seqLen_cases b0 with c | c | c | c | c <;> simp_all [pendOk]
+    · rw [if_neg hacc] at h; simp at h
+  | [b0, b1], hp =>
+    simp only [pendOk, Bool.and_eq_true, decide_eq_true_eq] at hp
+    simp only [stepS] at h
+    by_cases hacc' : accepts [b0, b1] x = true
+    · rw [if_pos hacc'] at h
+      have hacc : isCont x = true := by simpa [accepts] using hacc'
+      by_cases hl : [b0, b1].length + 1 = seqLen b0
+      · rw [if_pos hl] at h
+        simp at h; obtain ⟨rfl, rfl⟩ := h
+        refine ⟨rfl, Or.inr ?_⟩
+        skip
+        rcases seqLen_cases b0 with c | c | c | c | c <;> simp_all [wfChar]
+      · rw [if_neg hl] at h
+        simp at h; obtain ⟨rfl, rfl⟩ := h
+        refine ⟨?_, Or.inl rfl⟩
+        rcases seqLen_cases b0 with c | c | c | c | c <;> simp_all [pendOk]
+    · rw [if_neg hacc'] at h; simp at h
+  | [b0, b1, b2], hp =>
+    simp only [pendOk, Bool.and_eq_true, decide_eq_true_eq] at hp
+    simp only [stepS] at h
+    by_cases hacc' : accepts [b0, b1, b2] x = true
+    · rw [if_pos hacc'] at h
+      have hacc : isCont x = true := by simpa [accepts] using hacc'
+      by_cases hl : [b0, b1, b2].length + 1 = seqLen b0
+      · rw [if_pos hl] at h
+        simp at h; obtain ⟨rfl, rfl⟩ := h
+        refine ⟨rfl, Or.inr ?_⟩
+        skip
+        rcases seqLen_cases b0 with c | c | c | c | c <;> simp_all [wfChar]
+      · rw [if_neg hl] at h
+        simp at h; obtain ⟨rfl, rfl⟩ := h
+        simp_all
+    · rw [if_neg hacc'] at h; simp at h
+  | _ :: _ :: _ :: _ :: _, hp => simp [pendOk] at hp
+
+theorem goS_wf (a : Bytes) : ∀ (p o p' : Bytes), pendOk p = true → goS p a = some (o, p') →
+    pendOk p' = true ∧ ∃ chars : List Bytes, (∀ c ∈ chars, wfChar c = true) ∧ o = chars.flatten := by
+  induction a with
+  | nil => intro p o p' hp h; simp [goS] at h; obtain ⟨rfl, rfl⟩ := h; exact ⟨hp, [], by simp, rfl⟩
+  | cons x xs ih =>
+    intro p o p' hp h
+    simp only [goS] at h
+    cases hs : stepS p x with
+    | none => rw [hs] at h; simp at h
+    | some r1 =>
+      rw [hs] at h; simp only at h
+      cases hg : goS r1.2 xs with
+      | none => rw [hg] at h; simp at h
+      | some r2 =>
+        rw [hg] at h; simp at h; obtain ⟨rfl, rfl⟩ := h
+        obtain ⟨hp1, ho1⟩ := stepS_wf p x r1.1 r1.2 hp (by simpa using hs)
+        obtain ⟨hp2, chars, hch, ho2⟩ := ih r1.2 r2.1 r2.2 hp1 (by simpa using hg)
+        refine ⟨hp2, ?_⟩
+        rcases ho1 with h0 | h0
+        · exact ⟨chars, hch, by rw [h0, ho2]; simp⟩
+        · refine ⟨r1.1 :: chars, ?_, by rw [ho2]; simp⟩
+          intro c hc
+          simp only [List.mem_cons] at hc
+          rcases hc with rfl | hc
+          · exact h0
+          · exact hch c hc
+
+/-- every piece the strict incremental decoder hands over is itself UTF-8 — whatever was held
+    back from the previous frame -/
+theorem goS_out_valid (a p o p' : Bytes) (hp : pendOk p = true) (h : goS p a = some (o, p')) :
+    pendOk p' = true ∧ san o = o := by
+  obtain ⟨hp', chars, hch, rfl⟩ := goS_wf a p o p' hp h
+  exact ⟨hp', san_wf chars hch⟩
+
+theorem decodeChunks_valid (cs : List Bytes) : ∀ (p : Bytes) (outs : List Bytes) (p' : Bytes),
+    pendOk p = true → decodeChunks p cs = some (outs, p') → ∀ o ∈ outs, san o = o := by
+  induction cs with
+  | nil => intro p outs p' _ h; simp [decodeChunks] at h; obtain ⟨rfl, _⟩ := h; simp
+  | cons c rest ih =>
+    intro p outs p' hp h
+    cases rest with
+    | nil =>
+      simp only [decodeChunks] at h
+      cases hi : incDecode p c true with
+      | none => rw [hi] at h; simp at h
+      | some r =>
+        rw [hi] at h; simp at h; obtain ⟨rfl, _⟩ := h
+        obtain ⟨hg, _⟩ := incDecode_goS p c true r hi
+        intro o ho; simp at ho; subst ho
+        exact (goS_out_valid c p r.1 r.2 hp (by simpa using hg)).2
+    | cons c2 rest' =>
+      simp only [decodeChunks] at h
+      cases hi : incDecode p c false with
+      | none => rw [hi] at h; simp at h
+      | some r =>
+        rw [hi] at h; simp only at h
+        cases hd : decodeChunks r.2 (c2 :: rest') with
+        | none => rw [hd] at h; simp at h
+        | some r2 =>
+          rw [hd] at h; simp at h; obtain ⟨rfl, _⟩ := h
+          obtain ⟨hg, _⟩ := incDecode_goS p c false r hi
+          obtain ⟨hp1, hv⟩ := goS_out_valid c p r.1 r.2 hp (by simpa using hg)
+          intro o ho
+          simp only [List.mem_cons] at ho
+          rcases ho with rfl | ho
+          · exact hv
+          · exact ih r.2 r2.1 r2.2 hp1 hd o ho
+
 end MitmVerif.C28
